@@ -14,6 +14,36 @@ CHECKS = {
         "Every generated abstract document is pushed through the real Document::save_to and Document::load_mem (twice, both xref formats, default and no-default-features builds) and the loaded objects/trailer/version are compared with the model by an independent structural oracle. Held = held on the documents of this run (counts in evidence); the lexical layer additionally sees all 65,536 byte pairs in every string/name/key position.",
         "Trusted: the harness' model/equality code and Rust std float formatting/parsing. Domain restrictions listed under assumptions in the evidence file.",
     ),
+    "C02": (
+        "exploration", "DESIGN.md §4 C02",
+        "runtime monitor: independent reference PDF writer (randomised legal syntax) as workload, abstract-document equality oracle on Document::load_mem results, feature-level minimisation for signatures",
+        "Every file is produced by an independent writer that randomises each syntactic freedom of ISO 32000-1 7.2-7.5 and is checked by an independent strict reader at setup; lopdf's loaded objects/trailer/version are compared with the abstract document. Held = on the files of this run; per-feature file counts are in the evidence.",
+        "Trusted: reference writer (mutually self-tested with the strict reader), reference codecs (cross-checked against zlib/base64 during development), Rust std number parsing.",
+    ),
+    "C03": (
+        "exploration", "DESIGN.md §4 C03",
+        "runtime monitor: independent strict byte-accounting PDF reader applied to every file produced by Document::save_to / IncrementalDocument::save_to",
+        "Every saved file (both xref formats, plain and 1..3 incremental updates) is parsed by a reader that shares no code with lopdf, tolerates nothing and accounts for every byte; the recovered document must equal the saved one.",
+        "Trusted: strict reader (self-tested against the reference writer), reference codecs.",
+    ),
+    "C07": (
+        "exploration", "DESIGN.md §4 C07",
+        "runtime monitor: latest-wins sequential model over recorded revision histories (reference-writer files, every prefix loaded) + per-step invariants on IncrementalDocument saves checked with the strict reader",
+        "Histories of 1..4 update revisions in every cross-reference style, and edit scripts replayed through IncrementalDocument with the result re-loaded after every step; oracle is a 15-line id->latest-object model plus byte-prefix, appended-part, Prev-link and prev-view checks.",
+        "Trusted: reference writer / strict reader; raw CR in literal strings (C02's known finding) is kept out of this workload.",
+    ),
+    "C14": (
+        "exploration", "DESIGN.md §4 C14",
+        "runtime monitor: decode(encode(x)) == x oracle over seeded operation sequences + exhaustive byte-pair sweep + generated inline images",
+        "Operation sequences over the documented operator alphabet with operands of every direct kind are pushed through the real Content::encode / Content::decode; all 65,536 byte pairs in each string/name position; inline images of every supported colour space re-encoded and re-decoded.",
+        "Trusted: model equality code. Operator tokens beginning with true/false/null/BI are outside the quantifier.",
+    ),
+    "C19": (
+        "fault_enumeration", "DESIGN.md §4 C19",
+        "fault injection at the std::io::Write boundary: every byte position of the output x {persistent error, Ok(0), single failing call}, 5 chunking/EINTR policies; offline oracle over recorded sink calls",
+        "For each generated document (plain + incremental, both xref formats) every failure position of the complete output is enumerated and each failure kind injected; save must return Err, delivered bytes must be the golden prefix, a later save must produce a file that loads to the same content; chunking/Interrupted policies must reproduce the golden bytes.",
+        "Exhaustive per document over positions; documents themselves are sampled. Sink reports errors truthfully.",
+    ),
 }
 
 NOT_YET = {
